@@ -146,7 +146,15 @@ Definition parse_close_payload (lossy : bytes -> bytes) (payload : bytes) : R (o
     Val (Some (code, description)))
   else Val None.
 
-(* Parser::write_message; [key] is the value of rand::random::<[u8; 4]>() *)
+(* apply_mask(&mut dst[pos..], mask): the bytes of [dst] from absolute index [pos] on are XOR-ed in
+   place, everything in front of [pos] is left alone *)
+Definition mask_from (dst : bytes) (pos : N) (key : bytes) : bytes :=
+  firstn (N.to_nat pos) dst ++ apply_mask (skipn (N.to_nat pos) dst) key.
+
+(* Parser::write_message; [key] is the value of rand::random::<[u8; 4]>(). [dst] is the caller's
+   write buffer WITH whatever it already holds (earlier frames that were not flushed yet): every
+   put_* appends, and the masking step works on the buffer in place from
+   `pos = dst.len() - payload_len` (an index into the whole buffer, not into the new frame). *)
 Definition write_message (dst payload : bytes) (op : opcode) (fin mask : bool) (key : bytes) : bytes :=
   let one := if fin then N.lor 128 (u8_of_opcode op) else u8_of_opcode op in
   let payload_len := lenN payload in
@@ -155,7 +163,11 @@ Definition write_message (dst payload : bytes) (op : opcode) (fin mask : bool) (
     if payload_len <? 126 then dst ++ [one; N.lor two (payload_len mod 256)]
     else if payload_len <=? 65535 then dst ++ [one; N.lor two 126] ++ to_be 2 (payload_len mod 65536)
     else dst ++ [one; N.lor two 127] ++ to_be 8 (payload_len mod 2 ^ 64) in
-  if mask then dst1 ++ key ++ apply_mask payload key
+  if mask then
+    let dst2 := dst1 ++ key in           (* dst.put_slice(mask.as_ref()) *)
+    let dst3 := dst2 ++ payload in       (* dst.put_slice(payload.as_ref()) *)
+    let pos := lenN dst3 - payload_len in
+    mask_from dst3 pos key
   else dst1 ++ payload.
 
 (* Parser::write_close *)
